@@ -66,32 +66,20 @@ Judge(e) ==
                                /\ Len(got) + e.calls[n][2] > e.room
          IN [ok |-> good, exp |-> [bad |-> IF good THEN <<>> ELSE <<"user">>, want |-> [sig |-> Sig(e.stack), full |-> full]]]
     [] e.op = "cobs_ops" ->
-         \* every call the COBS flavour made on its storage, step by step against the encoder machine: patches only at the
-         \* expected code index and below the cursor, pushes in order, the first refused push ends everything
+         \* every call the COBS flavour made on a recording storage of capacity cap. Which calls it makes (single pushes or
+         \* runs, when it patches a code byte) is its own business; what the statements fix is that it only ever indexes bytes
+         \* it has already produced (a fixed slice storage would otherwise be read or written outside the output), that with
+         \* enough capacity the storage ends up holding exactly the frame, and that otherwise the result is buffer-full.
          LET st == StackOf(e.stack)
              x == TLCEval(IF Len(st) = 2 THEN LayerApply(st[1], Enc(e.shape, e.value), 254) ELSE Enc(e.shape, e.value))    \* what reaches the COBS layer
-             exp == TLCEval(CobsStoreOps(x, 254))
-             n == Len(e.calls)
-             \* W[i] = store length before expected op i, or -1 once the walk has failed; obs index = i
-             W[i \in 1..(Len(exp) + 1)] ==
-                IF i = 1 THEN 0
-                ELSE LET len == W[i - 1]  o == exp[i - 1] IN
-                     IF len < 0 \/ i - 1 > n THEN -1
-                     ELSE LET c == e.calls[i - 1] IN
-                          IF o[1] = "patch" THEN (IF c[1] = "patch" /\ c[2] = o[2] /\ c[3] = len /\ o[2] < len THEN len ELSE -1)
-                          ELSE IF c[1] # "push" \/ c[2] # o[2] THEN -1
-                          ELSE IF len >= e.cap THEN (IF c[3] = 0 /\ i - 1 = n THEN -2 ELSE -1)        \* refused: must be the last call
-                          ELSE (IF c[3] = 1 THEN len + 1 ELSE -1)
-             firstStop == IF \E i \in 1..(Len(exp) + 1) : W[i] < 0 THEN CHOOSE i \in 1..(Len(exp) + 1) : W[i] < 0 /\ \A j \in 1..(i - 1) : W[j] >= 0 ELSE 0
              full == Framed(x, 254)
-             good == /\ AlgsOK(e.stack)
-                     /\ IF firstStop = 0
-                        THEN \* all expected calls happened: then finalize of the store with exactly the frame, and success
-                             /\ n = Len(exp) + 1 /\ e.calls[n][1] = "fin" /\ e.calls[n][2] = full
-                             /\ e.res.ok = 1 /\ e.res.bytes = full /\ e.cap >= Len(full)
-                        ELSE \* stopped by a refused push (and only by that): error, and the capacity really was too small
-                             /\ W[firstStop] = -2 /\ e.res.ok = 0 /\ e.res.err = "BufferFull" /\ e.cap < Len(full)
-         IN [ok |-> good, exp |-> [bad |-> IF good THEN <<>> ELSE <<"cobs_ops">>, want |-> [sig |-> Sig(e.stack), stopped_at |-> firstStop, n_expected |-> Len(exp)]]]
+             n == Len(e.calls)
+             inBounds == \A i \in 1..n : e.calls[i][1] \in {"patch", "read"} => (e.calls[i][2] >= 0 /\ e.calls[i][2] < e.calls[i][3])
+             good == /\ AlgsOK(e.stack) /\ inBounds /\ ~(Has(e.res, "err") /\ e.res.err = "panic")
+                     /\ IF e.cap >= Len(full)
+                        THEN n >= 1 /\ e.calls[n][1] = "fin" /\ e.calls[n][2] = full /\ e.res.ok = 1 /\ e.res.bytes = full
+                        ELSE e.res.ok = 0 /\ e.res.err = "BufferFull"
+         IN [ok |-> good, exp |-> [bad |-> IF good THEN <<>> ELSE <<"cobs_ops">>, want |-> [sig |-> Sig(e.stack), full |-> full, in_bounds |-> inBounds]]]
     [] OTHER -> [ok |-> FALSE, exp |-> [bad |-> <<"crash">>, want |-> "no action of the specification matches this event"]]
 
 Init == l = 1
